@@ -331,4 +331,17 @@ func TestVerifDriver(t *testing.T) {
 		}
 		emit("pow.check", M{"tz": tz, "n": nn, "seed": r.Intn(1 << 30)})
 	}
+	// the top of the range, always: n = 241, 242, 243 with no qualifying lane, and with one (first, last, middle)
+	for _, nn := range []int{241, 242, 243} {
+		for _, at := range []int{-1, 0, 63, 31} {
+			tz := make([]int, 64)
+			for j := range tz {
+				tz[j] = []int{nn - 1, nn - 2, 0, 5}[(j+nn)%4]
+			}
+			if at >= 0 {
+				tz[at] = nn
+			}
+			emit("pow.check", M{"tz": tz, "n": nn, "seed": r.Intn(1 << 30)})
+		}
+	}
 }
